@@ -1,6 +1,7 @@
 import JaqalProofs.Lemmas.WalkDisc
 import JaqalProofs.Lemmas.WalkBracket
 import JaqalProofs.Lemmas.WalkAddr
+import JaqalProofs.Lemmas.WalkErr
 /-!
 # C12 — only well-bracketed prepare/measure programs are executed
 
@@ -202,6 +203,43 @@ theorem C12_errors (body : List Stmt) (e : DiscErr) (h : discover body = .error 
           · simp only [hcond, if_true, Except.error.injEq] at hstep; subst hstep; rfl
           · simp [hcond] at hstep
 
+/-- **C12 (rejections, loop rule).** A rejection "measure_all -> prepare_all not supported in loops" points
+at a loop statement of the program with count > 1 such that the subcircuit `s` left open by everything
+before the loop in flat order is closed by a measure_all inside the loop's body. -/
+theorem C12_errors_loop (body : List Stmt) (h : discover body = .error .measureToPrepareInLoop) :
+    ∃ pre n par b a post s e,
+      flatToks body = pre ++ flatStmt (.loop n par b) a ++ post ∧ n > 1 ∧
+      openAfter pre none = some s ∧ (s, e) ∈ pairsFrom (flatList b a 0) (some s) := by
+  have hl : discList body [] 0 ⟨none, []⟩ = .error .measureToPrepareInLoop := by
+    simp only [discover, discStmt] at h
+    cases hl : discList body [] 0 ⟨none, []⟩ with
+    | error e => simp only [hl, Except.error.injEq] at h; rw [h]
+    | ok st => simp [hl, blockExit] at h
+  obtain ⟨pre, n, par, b, a, post, st', st'', s, stack', h1, h2, h3, h4, h5, h6⟩ :=
+    errLoc_list body [] 0 ⟨none, []⟩ [] hl
+  have hpre := crun_subs pre h2
+  simp only [List.nil_append] at hpre
+  have hb := disc_flat_list b a 0 st' []
+  rw [h5] at hb
+  have hbody := crun_subs _ hb
+  simp only at hbody
+  have hopen : openAfter pre none = some s := by rw [← hpre.2, h4]
+  have hnd : (paddrs pre).Nodup := by
+    have := paddrs_flat_nodup body
+    rw [flatToks, h1, paddrs_append, paddrs_append] at this
+    exact (List.nodup_append.mp (List.nodup_append.mp this).1).1
+  rw [hbody.1, List.map_append, List.mem_append] at h6
+  rcases h6 with h6 | h6
+  · exfalso
+    obtain ⟨x, hx, hxs⟩ := List.mem_map.mp h6
+    rw [hpre.1] at hx
+    exact open_not_closed pre none s (by simpa using hnd) hopen x hx hxs
+  · obtain ⟨x, hx, hxs⟩ := List.mem_map.mp h6
+    rw [h4] at hx
+    obtain ⟨x1, x2⟩ := x
+    simp only at hxs; subst hxs
+    exact ⟨pre, n, par, b, a, post, x1, x2, h1, h3, hopen, hx⟩
+
 /-! ### Non-vacuity -/
 
 /-- `prepare_all; loop 2 { X; prepare_all; Y; measure_all }; prepare_all` : accepted, one subcircuit
@@ -225,3 +263,4 @@ end Jaqal.Walk
 #print axioms Jaqal.Walk.C12_iff
 #print axioms Jaqal.Walk.C12_count
 #print axioms Jaqal.Walk.C12_errors
+#print axioms Jaqal.Walk.C12_errors_loop
